@@ -650,7 +650,7 @@ def _collect(rep, results, state, name):
 def run_bounded(rep: Report, tier: str) -> None:
     quick = tier == "quick"
     rng = random.Random(seed() * 104729 + 12)
-    state = {"viols": [], "deadline": deadline(tier, 80, 25 * 60), "timed_out": False}
+    state = {"viols": [], "deadline": deadline(tier, 240, 25 * 60), "timed_out": False}
     rep.rule = (
         "a case is one concrete call (function, equation or sublists, operand shapes, dtype) that numpy.einsum accepts "
         "(calls numpy rejects are skipped and counted separately); non-trivial: everything except the single-operand "
